@@ -80,7 +80,7 @@ func concScheds(r *vx.Run, c mvx.Cfg, all bool) []*vx.Sched {
 				set := func(parent []byte, wl []string, h int64) []byte {
 					root, err := w.st.Set(&types.StoreSet{StateHash: parent, KV: mvx.KV(wl...), Height: h}, true)
 					if err != nil {
-						w.bad = append(w.bad, "setup Set: "+err.Error())
+						vrt.Own(func() { w.bad = append(w.bad, "setup Set: "+err.Error()) })
 					}
 					return root
 				}
@@ -91,7 +91,7 @@ func concScheds(r *vx.Run, c mvx.Cfg, all bool) []*vx.Sched {
 				vrt.GoNamed("A", func() {
 					root, err := w.st.MemSet(&types.StoreSet{StateHash: w.r1, KV: mvx.KV(wlists[sc.wa]...), Height: 3}, true)
 					if err != nil {
-						w.bad = append(w.bad, "MemSet A: "+err.Error())
+						vrt.Own(func() { w.bad = append(w.bad, "MemSet A: "+err.Error()) })
 						return
 					}
 					w.ra = root
@@ -104,7 +104,7 @@ func concScheds(r *vx.Run, c mvx.Cfg, all bool) []*vx.Sched {
 				vrt.GoNamed("B", func() {
 					root, err := w.st.MemSet(&types.StoreSet{StateHash: w.r1, KV: mvx.KV(wlists[sc.wb]...), Height: 3}, true)
 					if err != nil {
-						w.bad = append(w.bad, "MemSet B: "+err.Error())
+						vrt.Own(func() { w.bad = append(w.bad, "MemSet B: "+err.Error()) })
 						return
 					}
 					w.rb = root
@@ -118,10 +118,10 @@ func concScheds(r *vx.Run, c mvx.Cfg, all bool) []*vx.Sched {
 				})
 				vrt.GoNamed("reader", func() {
 					if f := readAll(w.st, w.r0, w.c0); f != "" {
-						w.bad = append(w.bad, "concurrent read at the first committed root: "+f)
+						vrt.Own(func() { w.bad = append(w.bad, "concurrent read at the first committed root: "+f) })
 					}
 					if f := readAll(w.st, w.r1, w.c1); f != "" {
-						w.bad = append(w.bad, "concurrent read at the second committed root: "+f)
+						vrt.Own(func() { w.bad = append(w.bad, "concurrent read at the second committed root: "+f) })
 					}
 				})
 			},
